@@ -898,6 +898,11 @@ int cp_rsa_ver(uint8_t *sig, size_t sig_len, const uint8_t *msg, size_t msg_len,
 		return 0;
 	}
 
+	/* A digest supplied by the caller has the length of the hash function. */
+	if (hash && msg_len != RLC_MD_LEN) {
+		return 0;
+	}
+
 	pad_len = (!hash ? RLC_MD_LEN : msg_len);
 
 #if CP_RSAPD == PKCS2
